@@ -189,14 +189,15 @@ func check(which, tier string, dump bool) (code int) {
 	for _, id := range ids {
 		p := rules.Get(id)
 		r := ob.NewReport(id)
-		if len(w.TypeErrs) > 0 && id != "C17" {
+		ownsMaterialisation := id == "C17" || id == "C18" || id == "C19" // their materialise+typecheck rule reports generator and type errors as violations
+		if len(w.TypeErrs) > 0 && !ownsMaterialisation {
 			n := len(w.TypeErrs)
 			if n > 5 {
 				n = 5
 			}
 			r.Fail("type errors in the analysed program (%d), e.g. %s", len(w.TypeErrs), strings.Join(w.TypeErrs[:n], " | "))
 		} else {
-			if p.NeedGen && id != "C17" {
+			if p.NeedGen && !ownsMaterialisation {
 				for _, g := range gens {
 					if g.Mat.Err != "" {
 						r.Fail("materialise:%s failed: %s", g.Name, firstLine(g.Mat.Err))
